@@ -103,6 +103,26 @@ def repo_head(repo):
     return out.strip() + ('+dirty' if out2.strip() else '')
 
 
+def gen_deps(modules):
+    """the `DsdVerif.Gen.*` modules that the given Lean modules import, directly or through other DsdVerif modules"""
+    seen, todo, gens = set(), list(modules), set()
+    while todo:
+        m = todo.pop()
+        if m in seen:
+            continue
+        seen.add(m)
+        if m.startswith('DsdVerif.Gen.'):
+            gens.add(m.split('.')[-1])
+        path = os.path.join(LEAN, *m.split('.')) + '.lean'
+        try:
+            text = open(path, encoding='utf-8').read()
+        except OSError:
+            continue
+        for mm in re.findall(r'^import\s+(DsdVerif\.[A-Za-z0-9_.]+)', text, re.M):
+            todo.append(mm)
+    return gens
+
+
 # ------------------------------------------------------------------------- proof side
 class ProofSide:
     """translator + lake build + axiom audit + forbidden-token grep for one property"""
@@ -118,6 +138,8 @@ class ProofSide:
         self.axioms = {}                # theorem -> list of axioms
         self.audit_all = None           # axioms of EVERY constant of the imported DsdVerif modules
         self.build_s = 0.0
+        self.notes = []                 # things worth recording that do not concern this property
+        self.gen_deps = sorted(gen_files)
 
     def run(self, leanchecker=False):
         t0 = time.time()
@@ -128,9 +150,34 @@ class ProofSide:
                 self.gen_report = {'files': {}, 'errors': {'translator': err[-500:]}}
             else:
                 self.gen_report = json.loads(out)
+                # a regenerated file that does not elaborate (the translation is ill-typed for the changed source) is treated like
+                # a refused translation: reported, and the previous content restored so that the rest of the model still builds
+                for name, info in sorted(self.gen_report.get('files', {}).items()):
+                    if not info.get('changed'):
+                        continue
+                    rc2, out2, err2 = sh(['lake', 'build', 'DsdVerif.Gen.' + name], cwd=LEAN)
+                    if rc2 != 0:
+                        self.gen_report.setdefault('errors', {})[name] = 'the regenerated file does not elaborate: ' + \
+                            self.summarise_build_errors(out2 + err2)[:1500]
+                        prev = os.path.join(GEN, name + '.lean.prev')
+                        if os.path.exists(prev):
+                            os.replace(prev, os.path.join(GEN, name + '.lean'))
+                # a file that could not be regenerated concerns the properties whose theorems or streams read it: the files the
+                # property declares (GEN_FILES) and every Gen module its Lean modules import, directly or not
+                for name, info in self.gen_report.get('files', {}).items():
+                    unt = (info.get('summary') or {}).get('untranslated') if isinstance(info.get('summary'), dict) else None
+                    for meth, why in (unt or {}).items():
+                        # one method could not be transcribed (it is a raising stub in Gen/<name>.lean): the theorems and the
+                        # streams about THAT method break; whether this concerns the property is decided by its proof build
+                        self.notes.append('Gen/%s.lean: %s could not be translated from the working tree: %s' % (name, meth, why[:300]))
+                deps = set(self.gen_files) | gen_deps(self.modules)
+                self.gen_deps = sorted(deps)
                 for name, msg in self.gen_report.get('errors', {}).items():
-                    self.problem('translator', 'Gen/%s.lean could not be regenerated from the working tree: %s' % (name, msg),
-                                 gen_file=name)
+                    if name in deps:
+                        self.problem('translator', 'Gen/%s.lean could not be regenerated from the working tree: %s' % (name, msg),
+                                     gen_file=name)
+                    else:
+                        self.notes.append('Gen/%s.lean could not be regenerated (not read by this property): %s' % (name, msg[:300]))
             # build the model first (the driver needs it), then the property modules one by one so that a
             # failing obligation is attributed to its module
             rc, out, err = sh(['lake', 'build', 'DsdVerif.Driver'], cwd=LEAN)
@@ -372,7 +419,7 @@ def finish(res, proof, wall_s, level_note):
         exit_code = 1
     elif (not proof.ok) or res.disagreements:
         payload = {'proof_problems': proof.problems, 'disagreements': res.disagreements[:10],
-                   'model_failing': res.model_failing[:20],
+                   'model_failing': res.model_failing[:20], 'translator_notes': proof.notes,
                    'note': 'a proof obligation or the model/implementation correspondence no longer checks; '
                            'the failing-input search on the real code found no input violating the property'}
         path = write_replay(res, 'unproven', payload)
@@ -398,6 +445,7 @@ def finish(res, proof, wall_s, level_note):
         'disagreements': len(res.disagreements), 'input_distribution': res.dist,
         'known_findings_reproduced': [v['key'] for v in known_hit],
         'fixed_entries': fixed, 'build_s': round(proof.build_s, 1), 'notes': res.notes,
+        'translator_notes': proof.notes, 'gen_files_read': proof.gen_deps,
     }
     ev = {'property_id': res.prop, 'tier': res.tier, 'seed': res.seed, 'level': 'proof', 'coverage': cov,
           'assumptions': level_note, 'wall_s': round(wall_s, 2), 'violations': len(new_viol)}
